@@ -159,6 +159,7 @@ func generateSingleton(id int32, fv canCall) cacherFunc {
 	var once sync.Once
 	var out []reflect.Value
 	singleton := func(in []reflect.Value) []reflect.Value {
+		verifYield("singleton-once")
 		once.Do(func() {
 			out = fv.Call(in)
 		})
@@ -207,6 +208,7 @@ func defineCacher(_ int32, fv canCall, l int, okayCheck func([]reflect.Value) bo
 			if okayCheck != nil && !okayCheck(in) {
 				return fv.Call(in)
 			}
+			verifYield("cache-lock")
 			lock.Lock()
 			defer lock.Unlock()
 			var key in3
@@ -214,6 +216,7 @@ func defineCacher(_ int32, fv canCall, l int, okayCheck func([]reflect.Value) bo
 			if out, found := cache[key]; found {
 				return out
 			}
+			verifYield("cache-miss")
 			out := fv.Call(in)
 			cache[key] = out
 			return out
@@ -225,6 +228,7 @@ func defineCacher(_ int32, fv canCall, l int, okayCheck func([]reflect.Value) bo
 			if okayCheck != nil && !okayCheck(in) {
 				return fv.Call(in)
 			}
+			verifYield("cache-lock")
 			lock.Lock()
 			defer lock.Unlock()
 			var key in10
@@ -232,6 +236,7 @@ func defineCacher(_ int32, fv canCall, l int, okayCheck func([]reflect.Value) bo
 			if out, found := cache[key]; found {
 				return out
 			}
+			verifYield("cache-miss")
 			out := fv.Call(in)
 			cache[key] = out
 			return out
@@ -243,6 +248,7 @@ func defineCacher(_ int32, fv canCall, l int, okayCheck func([]reflect.Value) bo
 			if okayCheck != nil && !okayCheck(in) {
 				return fv.Call(in)
 			}
+			verifYield("cache-lock")
 			lock.Lock()
 			defer lock.Unlock()
 			var key in30
@@ -250,6 +256,7 @@ func defineCacher(_ int32, fv canCall, l int, okayCheck func([]reflect.Value) bo
 			if out, found := cache[key]; found {
 				return out
 			}
+			verifYield("cache-miss")
 			out := fv.Call(in)
 			cache[key] = out
 			return out
@@ -261,6 +268,7 @@ func defineCacher(_ int32, fv canCall, l int, okayCheck func([]reflect.Value) bo
 			if okayCheck != nil && !okayCheck(in) {
 				return fv.Call(in)
 			}
+			verifYield("cache-lock")
 			lock.Lock()
 			defer lock.Unlock()
 			var key in90
@@ -268,6 +276,7 @@ func defineCacher(_ int32, fv canCall, l int, okayCheck func([]reflect.Value) bo
 			if out, found := cache[key]; found {
 				return out
 			}
+			verifYield("cache-miss")
 			out := fv.Call(in)
 			cache[key] = out
 			return out
